@@ -319,6 +319,48 @@ def run(prog, rep, tier):
             rep.ob('R08.2', ok, 'R08.2|%s|new-after-is_empty' % body.nkey, 'BlocksToFileReader::new only after offsets.is_empty() was excluded' if ok else
                    'BlocksToFileReader::new(offsets) is reachable with an empty offsets list: offsets[0] panics on a crafted footer', body.loc(b.idx))
 
+    # ---------------- R08.4 a loop around a raw read distinguishes the end of input
+    # (termination itself is not decided; this is the necessary part: a loop that calls Read::read and never compares the count with 0 spins
+    # forever once the source is exhausted -- e.g. a hand-written copy loop driven by a length announced by the archive)
+    from .c13 import ok_payload_locals
+    nloop = 0
+    for body in sorted(scope, key=lambda b: b.nkey):
+        if body.pkg not in ('mla', 'mlar', 'mla-bindings-c', 'curve25519-parser'):
+            continue
+        loops = body.loop_blocks()
+        cnt = collections.Counter()
+        for b in body.calls():
+            t = b.term
+            if t.ctrait != 'std::io::Read' or t.cmethod != 'read' or b.idx not in loops:
+                continue
+            # the strongly connected part of the CFG around the read
+            fwd = body.reachable(b.idx)
+            scc = {x for x in fwd if b.idx in body.reachable(x)}
+            if b.idx not in scc or len(scc) < 2:
+                continue
+            nloop += 1
+            rep.fn(body)
+            pay = ok_payload_locals(body, b)
+            tested = False
+            for bl in body.blocks:
+                si = switch_info(prog, body, bl.idx)
+                if not si:
+                    continue
+                if si['kind'] == 'bool':
+                    e = expr_of(body, si['cond'])
+                    if e[0] == 'binop' and e[1] in ('Eq', 'Ne', 'Gt', 'Lt', 'Ge', 'Le'):
+                        for x_, y_ in ((e[2], e[3]), (e[3], e[2])):
+                            if x_[0] == 'place' and (x_[1][0] in pay or (x_[1][0] == t.dest[0])) and y_[0] == 'const' and y_[1] in (0, 1):
+                                tested = True
+                elif si['kind'] == 'int' and si.get('place') is not None and (si['place'][0] in pay or si['place'][0] == t.dest[0]):
+                    tested = True     # `match n { 0 => .., _ => .. }`
+            key = 'R08.4|%s|read-in-loop#%d|zero-count-tested' % (body.nkey, cnt[body.nkey])
+            cnt[body.nkey] += 1
+            rep.ob('R08.4', tested, key, 'the count returned by read() inside the loop is compared with 0' if tested else
+                   'a loop calls Read::read and never tests for a zero count: when the source ends before the loop condition is met (a length announced by the archive '
+                   'is larger than what the stream holds) the loop spins forever', body.loc(b.idx))
+    rep.floor('R08.4', nloop, 2, 'raw reads inside loops in the reader / repair scope')
+
     # ---------------- R08.3 name length limit dominates the name allocation
     fb = [b for b in mla.bodies if norm(b.defpath) == 'ArchiveFileBlock::from']
     if fb:
